@@ -199,7 +199,7 @@ Qed.
 (* ---------- go: everything before the search is total, for any argument text ---------- *)
 Lemma allotted_never_panics w a : 1 <= ga_mtg a -> exists ns, allotted_ns w a = Ok ns.
 Proof.
-  intros H. unfold allotted_ns. destruct (negb (ga_movetime a =? -1)); [eexists; reflexivity|].
+  intros H. unfold allotted_ns. destruct (negb (ga_movetime a =? no_movetime)); [eexists; reflexivity|].
   destruct (millis_never_panics w a H) as (m & E). rewrite E. eexists; reflexivity.
 Qed.
 (* the depth handed to the search is between 1 and MaxSearchDepth *)
